@@ -248,7 +248,7 @@ def bounded(rep, pid, known):
     env = dict(os.environ, PYTHONPATH=f"{rep.repo}:{VERIF}")
     total = {"evaluations": 0, "distinct": 0, "failures": []}
     procs = []
-    for fmt in ("vhd", "vdi", "hds", "vhdx", "vmdk", "hyperv", "hddxml", "qcow2"):
+    for fmt in ("vhd", "vdi", "hds", "vhdx", "vmdk", "hyperv", "hddxml", "qcow2", "bombs"):
         procs.append((fmt, subprocess.Popen([PY, "-m", "replay.fuzz_real", fmt, str(rep.seed), str(n), str(budget)], stdout=subprocess.PIPE, stderr=subprocess.PIPE, text=True, env=env, cwd=VERIF)))
     for fmt, p in procs:
         try:
@@ -267,5 +267,5 @@ def bounded(rep, pid, known):
                 rep.violations.append((pth, f"{fmt}: mutated input {f['mutation']} -> {f['kind']} ({f.get('detail', '')[:100]})", False))
     rep.bounded.append({"block": "c11.mutation_fuzz", "level": "bounded (mutations of valid inputs on the real code under a 5 s CPU / 1 GiB watchdog; NOT counted as proved)",
                         "evaluations": total["evaluations"], "distinct_nontrivial": total["distinct"],
-                        "rule": "per format: generated valid images x {every 32-bit word of the first 4 KiB and of every table set to 0, 1, 0xFFFFFFFF, +1, -1, self-reference} x truncation at 24 points x 40 random multi-byte corruptions; open + read(0, min(size, 64 KiB)) + read tail; non-trivial = mutation changes the bytes",
+                        "rule": "per format: generated valid images x {every 32-bit word of the first 4 KiB and of every table set to 0, 1, 0xFFFFFFFF, +1, -1, self-reference} x truncation at 24 points x 40 random multi-byte corruptions; open + read(0, min(size, 64 KiB)) + read tail; non-trivial = mutation changes the bytes; plus QCOW2 images whose compressed cluster carries a deflate stream inflating far beyond the cluster (peak allocation of every read bounded by 8 clusters + 6 MiB, tracemalloc)",
                         "failures": len(total["failures"])})
